@@ -174,6 +174,23 @@ def t_accessor_name_layout(text, res):
     return False
 
 
+def t_regex_after_identifier(text, res):
+    """a regex literal directly after an identifier (only possible where the
+    grammar does not permit division after it: a var declaration without
+    initialiser, a break/continue label, ... and then only across a line
+    break)"""
+    if res is None:
+        return False
+    toks = res.tokens
+    for i, t in enumerate(toks):
+        if t.kind == 'regex' and i > 0:
+            p = toks[i - 1]
+            if p.kind in ('num', 'str', 'regex') or (p.kind == 'name' and p.value not in refjs.RESERVED) or \
+                    (p.kind == 'name' and p.value in ('this', 'null', 'true', 'false')):
+                return True
+    return False
+
+
 _NUMTOK = re.compile(r'[A-Za-z_$][A-Za-z0-9_$]*|0[xX][0-9a-fA-F]+|(?:[0-9]+\.?[0-9]*|\.[0-9]+)(?:[eE][+-]?[0-9]+)?')
 
 
